@@ -68,7 +68,7 @@ def plan_for(tier: str, seed: int, i: int) -> dict:
     disco_fault = rng.choice(DISCO_FAULTS) if rng.random() < 0.12 else None
     return {"prop": ID, "proto": proto, "steps": steps, "disco_fault": disco_fault,
             "boots": rng.choice([0, 1, 7, 2**20]), "time0": rng.choice([0, 100, 149, 10**6, 2**31 - 10**8]),
-            "engine_cfg": gen.gen_bytes(rng, 12) if rng.random() < 0.2 else b"", "ctx_echo": rng.random() < 0.3,
+            "engine_cfg": gen.gen_bytes(rng, 12) if rng.random() < 0.2 else b"", "ctx_echo": rng.random() < 0.3, "ctx_other": rng.random() < 0.15,
             # clock drift: the agent's engine clock runs slower or faster than the client's monotonic clock
             "rate": rng.choice([1.0, 1.0, 1.0, 1.0, 0.5, 0.75, 1.25, 1.5])}
 
@@ -103,6 +103,8 @@ def execute(plan: dict) -> dict:
     mib = {BASE + (1, 1, 1): ("str", b"value"), BASE + (1, 1, 2): ("int", 42), BASE + (1, 2, 1): ("c32", 7)}
     agent = w.add_agent(agent_for(proto, mib, boots=plan["boots"], time0=plan["time0"]))
     agent.report_ctx_echo = bool(plan.get("ctx_echo"))
+    if plan.get("ctx_other"):
+        agent.report_ctx_other = b"\x80\x00\x1f\x88\x04proxied-context"
     rate = float(plan.get("rate", 1.0))
     agent.rate = rate   # Reports may echo the request's context engine id (RFC 3412 7.1)
     slow = {"s": 0}
